@@ -206,6 +206,12 @@ def s5(ck, an):
         if k == "nlv" and isinstance(e, ast.Call):
             bad = [x for x in list(e.args) + [y.value for y in e.keywords] if isinstance(x, ast.Constant) and x.value is False]
             ck.check(not bad, "ARGFLOW", "S5.context-nlv-raises", fa.f.short, fa.loc(c), "the recorded NLV is the raising valuation", "the snapshot values the account with raise_if_broke=False", construct=f"nlv={got.get(k)}")
+    # the snapshot values the account (which marks to market and sweeps margin) BEFORE it copies values / holdings / margins
+    order = [(n.lineno, n.col_offset, k) for k, n in nodes.items()]
+    order.sort()
+    first = order[0][2] if order else None
+    ck.check(first in ("nlv", "weights"), "ORD", "S5.context-values-after-marking", fa.f.short, fa.loc(c), "the first snapshot field evaluated is a valuation (marks to market), so the copied ledgers are post-mark",
+             f"the first snapshot field evaluated is `{first}`: values / holdings / margins are copied before the account is marked to market", construct="Context(...) argument order")
     summ = attribute_summary(an, ctor)
     for k in want:
         v = summ.get(k)
